@@ -134,6 +134,23 @@ def int_boundaries(W):
     return sorted(s)
 
 
+def wide_windows(W, n):
+    bits = 8 * W
+    mx = (1 << (bits - 1)) - 1
+    centres = {0, mx - n // 2 + 1, -mx - 1 + n // 2}
+    for base in (10, 2):
+        k = base
+        while k <= mx:
+            centres.update((k, -k))
+            k *= base
+    los = set()
+    for c in centres:
+        lo = max(-mx - 1, min(c - n // 2, mx - n + 1))
+        los.add(lo)
+    # drop windows that are wholly contained in the union of earlier ones only when identical; overlaps are harmless
+    return sorted(los)
+
+
 def strings():
     out = []
     for n in range(0, 65):
@@ -153,6 +170,12 @@ def items(tier):
         for lo in (-32768, -10010, -1010, -138, -10, 118, 246, 990, 9990, 32736):
             out.append((i, 'loop', lo, 32 if lo + 32 <= 32768 else 32768 - lo))
             i += 1
+    if tier == 'thorough':
+        # wider words: a window of 1024 consecutive values centred on every +-10^k and +-2^k, on the extremes and on zero
+        for W in (3, 4, 8):
+            for lo in wide_windows(W, 1024):
+                out.append((i, 'wloop', W, lo, 1024))
+                i += 1
     for W in (2, 3, 4, 8):
         vals = int_boundaries(W)
         for c in range(0, len(vals), 128):
@@ -222,6 +245,11 @@ def run_item(item, tier):
             v = v + 1 if v < 32767 else -32768
         _run_expect(st, INT_LOOP, [str(lo), str(n)], 2, _expect_ints(vals), f'write(int) for {lo}..{lo + n - 1} at W=2', case, n=n)
         st.sample({'write_int_range': [lo, lo + n - 1], 'W': 2})
+    elif kind == 'wloop':
+        _, _, W, lo, n = item
+        vals = list(range(lo, lo + n))
+        _run_expect(st, INT_LOOP, [str(lo), str(n)], W, _expect_ints(vals), f'write(int) for {lo}..{lo + n - 1} at W={W}', case, n=n)
+        st.count('dims', f'wide_W{W}')
     elif kind == 'list':
         _, _, W, vals = item
         _run_expect(st, INT_LIST, [str(v) for v in vals], W, _expect_ints(vals), f'write(int) boundary values at W={W}', case, n=len(vals))
@@ -267,6 +295,7 @@ def run_item(item, tier):
 
 def coverage(total, tier):
     cov = std_coverage(total, {
+        'write(int), wider words': ('1024 consecutive values around every +-10^k, +-2^k, 0, min and max at W in 3,4,8' if tier == 'thorough' else 'thorough tier only'),
         'write(int)': ('all 65536 values' if tier == 'thorough' else '10 windows of 32 values at the digit-count and sign boundaries')
                       + ' at W=2; +-10^k+-1, +-2^k+-1, min, max and a 509-step stride at W in 2,3,4,8',
         'write(byte), write(bool)': 'all 256 bytes; both booleans; bool derived from -2..2; W in 2,3,4',
